@@ -240,6 +240,18 @@ static void check_insert(void)
       e = x;
   }
 
+  /* the expiry list must stay ordered by expiry time: ares_qcache_expire() only ever looks at its head, so an entry
+   * filed out of order outlives its lifetime for as long as a later-expiring entry sits in front of it */
+  {
+    ares_slist_node_t *pn = NULL;
+    for (n = ares_slist_node_first(qc->expire); n != NULL; pn = n, n = ares_slist_node_next(n)) {
+      if (pn != NULL) {
+        const ares_qcache_entry_t *xa = ares_slist_node_val(pn), *xb = ares_slist_node_val(n);
+        VP_ASSERT(xa->expire_ts <= xb->expire_ts, "expiry list stays ordered by expiry time after an insert");
+      }
+    }
+  }
+
   if (st == ARES_SUCCESS) {
     VP_ASSERT(resp->rcode == ARES_RCODE_NOERROR || resp->rcode == ARES_RCODE_NXDOMAIN, "only NOERROR and NXDOMAIN responses are cached");
     VP_ASSERT(!(resp->flags & ARES_FLAG_TC), "a truncated response is never cached");
